@@ -59,6 +59,7 @@ fn same(a: Point, b: Point) -> bool {
 //@ desc: Fragment::scale on Line and MarkerLine (lattice payload <= 400 cells, scale = any positive f32 with <= 8 significant bits and exponent -4..10): every coordinate is multiplied by the scale, endpoints are not reordered, dashedness and markers unchanged, variant unchanged
 //@ encodes: Fragment::scale, Line::scale, MarkerLine::scale, Point::scale
 #[kani::proof]
+#[kani::stub(std::io::_print, crate::kstub::noop_print)]
 fn o11_1_scale_line() {
     let s = any_scale();
     let (a, b) = (any_pt(), any_pt());
@@ -89,6 +90,7 @@ fn o11_1_scale_line() {
 //@ desc: Fragment::scale on Arc and Circle (lattice payloads, radius n/8 <= 50 cells, same scale set): endpoints/centre and radius multiplied by the scale; sweep/major flags, fill flag unchanged
 //@ encodes: Fragment::scale, Arc::scale, Circle::scale
 #[kani::proof]
+#[kani::stub(std::io::_print, crate::kstub::noop_print)]
 fn o11_1_scale_arc_circle() {
     let s = any_scale();
     let (a, b) = (any_pt(), any_pt());
@@ -118,6 +120,7 @@ fn o11_1_scale_arc_circle() {
 //@ desc: Fragment::scale on Rect, sharp and rounded (lattice corners <= 400 cells, radius n/8, same scale set): corners and rx multiplied by the scale, fill/dash flags unchanged
 //@ encodes: Fragment::scale, Rect::scale
 #[kani::proof]
+#[kani::stub(std::io::_print, crate::kstub::noop_print)]
 fn o11_1_scale_rect() {
     let s = any_scale();
     let (a, b) = (any_pt(), any_pt());
@@ -138,10 +141,11 @@ fn o11_1_scale_rect() {
     }
 }
 
-//@ harness: o11_2_rect_size_linear props=C11 tier=quick obl=O11.2 timeout=1500 mem=10
+//@ harness: o11_2_rect_size_linear props=C11 tier=thorough obl=O11.2 timeout=1500 mem=10
 //@ desc: the rendered width/height of a scaled Rect (differences of its scaled corners) equal scale x the unscaled width/height, for lattice corners <= 400 cells and every scale of the property's grid {0.5, 1, 3, 8, 10, 20, 37.5}: rendered sizes, not just stored fields, scale linearly
 //@ encodes: Rect::scale, Rect::width, Rect::height
 #[kani::proof]
+#[kani::stub(std::io::_print, crate::kstub::noop_print)]
 fn o11_2_rect_size_linear() {
     let si: u8 = kani::any();
     kani::assume(si < 7);
@@ -166,6 +170,7 @@ fn o11_2_rect_size_linear() {
 //@ desc: Fragment::scale on Polygon (3 lattice points, fill flag, one tag), Text and CellText (1 char): every point / the anchor multiplied by the scale; CellText becomes a Text anchored at scale x (cell point q); fill, tags, text unchanged
 //@ encodes: Fragment::scale, Polygon::scale, Text::scale, From<CellText> for Text
 #[kani::proof]
+#[kani::stub(std::io::_print, crate::kstub::noop_print)]
 #[kani::unwind(6)]
 fn o11_1_scale_polygon_text() {
     let s = any_scale();
@@ -233,6 +238,7 @@ fn moved(p: Point, k: i32, n: i32) -> Point {
 //@ desc: Fragment::absolute_position(cell (k<=400, n<=200)) on Line, MarkerLine, Arc, Circle, Rect (sharp/rounded) with eighth-unit lattice payloads around the cell: adds exactly (k, 2n) to every coordinate; radius, flags, markers, variant unchanged; endpoints not reordered
 //@ encodes: Fragment::absolute_position, Line/MarkerLine/Arc/Circle/Rect::absolute_position, Cell::absolute_position
 #[kani::proof]
+#[kani::stub(std::io::_print, crate::kstub::noop_print)]
 fn o6_2_abs_position_shapes() {
     let k = any_in(0, 400);
     let n = any_in(0, 200);
@@ -283,6 +289,7 @@ fn o6_2_abs_position_shapes() {
 //@ desc: Fragment::absolute_position(cell (k<=400, n<=200)) on Polygon (3 points), Text, CellText: adds exactly (k, 2n) to every point / (k, n) to the start cell; fill, tags, content unchanged
 //@ encodes: Fragment::absolute_position, Polygon::absolute_position, Text::absolute_position, CellText::absolute_position
 #[kani::proof]
+#[kani::stub(std::io::_print, crate::kstub::noop_print)]
 #[kani::unwind(6)]
 fn o6_2_abs_position_poly_text() {
     let k = any_in(0, 400);
@@ -334,46 +341,80 @@ fn o6_2_abs_position_poly_text() {
 // ---------------------------------------------------------------------------
 // C10 / C16: can_fit is bounding-box containment
 
-//@ harness: o10_4_can_fit_is_bbox props=C10,C16 tier=quick obl=O10.4 timeout=1200 mem=12
-//@ desc: container in {Rect, Circle}, content in {Rect, Line, Circle} with lattice payloads 0..64 quarter units at a cell offset <= 64x64: Fragment::can_fit <=> the content's bounding box lies inside the container's (integer oracle); translation invariant by construction of the offset
-//@ encodes: Fragment::can_fit, Rect::bounds, Circle::bounds, Line::bounds
-#[kani::proof]
-fn o10_4_can_fit_is_bbox() {
+/// The variants of container and content are CONCRETE at every call of can_fit
+/// (one call per combination): a symbolic enum discriminant makes CBMC execute
+/// the bounds() code of all eight fragment kinds, which is what made the first
+/// version of this harness time out.
+fn fit_case(cont_rect: bool, kind: u8) {
     let offx = any_in(0, 64) * 4;
     let offy = any_in(0, 64) * 8;
-    let q = |lo: i32, hi: i32| any_in(lo, hi);
-    // container
-    let cont_rect: bool = kani::any();
-    let (cx0, cy0, cx1, cy1) = (q(0, 64), q(0, 64), q(0, 64), q(0, 64));
+    let (cx0, cy0, cx1, cy1) = (any_in(0, 64), any_in(0, 64), any_in(0, 64), any_in(0, 64));
     kani::assume(cx0 < cx1 && cy0 < cy1);
-    let cr = q(1, 16);
-    let (container, bx0, by0, bx1, by1) = if cont_rect {
-        (rect(p4(offx + cx0, offy + cy0), p4(offx + cx1, offy + cy1), false, false), cx0, cy0, cx1, cy1)
+    let cr = any_in(1, 16);
+    let (x0, y0, x1, y1) = (any_in(0, 64), any_in(0, 64), any_in(0, 64), any_in(0, 64));
+    let r2 = any_in(1, 8);
+    let (bx0, by0, bx1, by1) = if cont_rect {
+        (cx0, cy0, cx1, cy1)
     } else {
-        (circle(p4(offx + cx0 + 16, offy + cy0 + 16), cr as f32 * 0.25, false), cx0 + 16 - cr, cy0 + 16 - cr, cx0 + 16 + cr, cy0 + 16 + cr)
+        (cx0 + 16 - cr, cy0 + 16 - cr, cx0 + 16 + cr, cy0 + 16 + cr)
     };
-    // content
-    let kind: u8 = kani::any();
-    kani::assume(kind < 3);
-    let (x0, y0, x1, y1) = (q(0, 64), q(0, 64), q(0, 64), q(0, 64));
-    let r2 = q(1, 8);
-    let (content, ox0, oy0, ox1, oy1) = match kind {
+    let (ox0, oy0, ox1, oy1) = match kind {
         0 => {
             kani::assume(x0 <= x1 && y0 <= y1);
-            (rect(p4(offx + x0, offy + y0), p4(offx + x1, offy + y1), false, false), x0, y0, x1, y1)
+            (x0, y0, x1, y1)
         }
-        1 => {
-            let (lx, hx) = if x0 < x1 { (x0, x1) } else { (x1, x0) };
-            let (ly, hy) = if y0 < y1 { (y0, y1) } else { (y1, y0) };
-            (line(p4(offx + x0, offy + y0), p4(offx + x1, offy + y1)), lx, ly, hx, hy)
-        }
-        _ => (circle(p4(offx + x0, offy + y0), r2 as f32 * 0.25, true), x0 - r2, y0 - r2, x0 + r2, y0 + r2),
+        1 => (if x0 < x1 { x0 } else { x1 }, if y0 < y1 { y0 } else { y1 }, if x0 < x1 { x1 } else { x0 }, if y0 < y1 { y1 } else { y0 }),
+        _ => (x0 - r2, y0 - r2, x0 + r2, y0 + r2),
     };
     let expected = bx0 <= ox0 && by0 <= oy0 && bx1 >= ox1 && by1 >= oy1;
-    let got = container.can_fit(&content);
-    kani::cover!(got && kind == 1, "a line fits");
-    kani::cover!(!got && !cont_rect, "something does not fit a circle");
+    let got = if cont_rect {
+        let container = rect(p4(offx + cx0, offy + cy0), p4(offx + cx1, offy + cy1), false, false);
+        match kind {
+            0 => container.can_fit(&rect(p4(offx + x0, offy + y0), p4(offx + x1, offy + y1), false, false)),
+            1 => container.can_fit(&line(p4(offx + x0, offy + y0), p4(offx + x1, offy + y1))),
+            _ => container.can_fit(&circle(p4(offx + x0, offy + y0), r2 as f32 * 0.25, true)),
+        }
+    } else {
+        let container = circle(p4(offx + cx0 + 16, offy + cy0 + 16), cr as f32 * 0.25, false);
+        match kind {
+            0 => container.can_fit(&rect(p4(offx + x0, offy + y0), p4(offx + x1, offy + y1), false, false)),
+            1 => container.can_fit(&line(p4(offx + x0, offy + y0), p4(offx + x1, offy + y1))),
+            _ => container.can_fit(&circle(p4(offx + x0, offy + y0), r2 as f32 * 0.25, true)),
+        }
+    };
+    kani::cover!(got, "something fits");
+    kani::cover!(!got, "something does not fit");
     assert!(got == expected, "O10.4 can_fit is exactly bounding-box containment");
+}
+
+//@ harness: o10_4_can_fit_rect props=C10,C16 tier=quick obl=O10.4 timeout=900 mem=10
+//@ desc: container Rect, content Rect / Line / Circle (each combination a separate call with concrete variants), lattice payloads 0..64 quarter units at a cell offset <= 64x64: Fragment::can_fit <=> the content's bounding box lies inside the container's (integer oracle)
+//@ encodes: Fragment::can_fit, Rect::bounds, Circle::bounds, Line::bounds
+#[kani::proof]
+#[kani::stub(std::io::_print, crate::kstub::noop_print)]
+fn o10_4_can_fit_rect() {
+    let kind: u8 = kani::any();
+    kani::assume(kind < 3);
+    match kind {
+        0 => fit_case(true, 0),
+        1 => fit_case(true, 1),
+        _ => fit_case(true, 2),
+    }
+}
+
+//@ harness: o10_4_can_fit_circle props=C10,C16 tier=quick obl=O10.4 timeout=900 mem=10
+//@ desc: container Circle, content Rect / Line / Circle, same bounds as o10_4_can_fit_rect
+//@ encodes: Fragment::can_fit, Rect::bounds, Circle::bounds, Line::bounds
+#[kani::proof]
+#[kani::stub(std::io::_print, crate::kstub::noop_print)]
+fn o10_4_can_fit_circle() {
+    let kind: u8 = kani::any();
+    kani::assume(kind < 3);
+    match kind {
+        0 => fit_case(false, 0),
+        1 => fit_case(false, 1),
+        _ => fit_case(false, 2),
+    }
 }
 
 // ---------------------------------------------------------------------------
@@ -383,6 +424,7 @@ fn o10_4_can_fit_is_bbox() {
 //@ desc: Fragment::is_contacting between a lattice Line and a lattice Arc (coords 0..32 quarter units + offset <= 64 cells) <=> they share an endpoint; between two Arcs likewise; symmetric
 //@ encodes: Fragment::is_contacting, Line::is_touching_arc, Arc::is_touching
 #[kani::proof]
+#[kani::stub(std::io::_print, crate::kstub::noop_print)]
 fn o5_5_contact_line_arc() {
     let offx = any_in(0, 64) * 4;
     let offy = any_in(0, 64) * 8;
